@@ -171,7 +171,20 @@ def gen_sched(g):
             cfg = {"pp_defs": defs, "include_dirs": [f"$(touch {cs2[0]})", "; id"],
                    "excl_paths": ["`id`", "|cat /etc/passwd"], "hover_language": "$(id)",
                    "nthreads": 2}
-            tree[f"{ROOT}/.fortlsrc"] = json.dumps(cfg)
+            text = json.dumps(cfg)
+            if rng.random() < 0.4:
+                # a configuration that is not valid JSON5 but reads like some other language's
+                # literal (Python/YAML habits): must be rejected with a message, never interpreted
+                pyexpr, cs3 = payloads(rng, i * 10 + 5)
+                canaries += cs3
+                text = rng.choice([
+                    "# my settings\n" + text,
+                    text.replace("}", ", \"nthreads\": True, \"x\": None}", 1).replace("{, ", "{", 1),
+                    "{'pp_defs': {'HAVE': str(" + pyexpr + ")}, 'notify_init': True}",
+                    "dict(pp_defs=dict(A=" + pyexpr + "))",
+                    "pp_defs:\n  A: !!python/object/apply:os.system ['touch " + cs3[0] + "']\n",
+                ])
+            tree[f"{ROOT}/.fortlsrc"] = text
     lines = model.split_lines(src)
     if delivery == "startup" or delivery in ("config", "cli"):
         tree[name] = src
@@ -182,6 +195,10 @@ def gen_sched(g):
         tree[name] = benign
         ops += [gen.initialize(0), gen.initialized(), gen.did_open(name, benign),
                 gen.did_change(name, [{"text": src}])]
+        # the same hostile text indexed again and again in the long-lived process (anything
+        # remembered from the first, rejected, evaluation must not be trusted later)
+        for k in range(rng.randint(0, 3)):
+            ops.append(gen.did_change(name, [{"text": src + f"! again {k}\n"}]))
     elif delivery == "save":
         tree[name] = benign
         ops += [gen.initialize(0), gen.initialized(), gen.did_open(name, benign),
